@@ -534,3 +534,98 @@ func ZzC05LongPassphrase() {
 	}))
 	verifrt.Reach("c05-end")
 }
+
+// zzC05LockedHistory: "the current private passphrase always unlocks it,
+// whatever accounts and addresses have been created or loaded". The manager
+// (fresh, with issued addresses, or restarted) is LOCKED; then `steps`
+// operations that are allowed while locked - issuing an external or internal
+// address (its private key is owed at the next unlock), renaming the account,
+// looking the account up, dropping it from the account cache - in any order;
+// then Unlock with the current passphrase succeeds (no error, no panic), every
+// address issued while locked answers PrivKey with the key matching its public
+// key, a wrong passphrase afterwards locks the manager again, and the lock
+// wipes everything.
+func zzC05LockedHistory(state, steps int) {
+	w := zzNewC05World(state)
+	if verifrt.Choice(2, "restarted") == 1 {
+		w.mgr.Close()
+		w.open()
+		sm, err := w.mgr.FetchScopedKeyManager(KeyScopeBIP0084)
+		zzMust(err)
+		w.sm = sm
+		w.pubAddr, w.scripts, w.cached, w.kept = nil, nil, nil, nil
+		w.taproot = nil
+		verifrt.Reach("restarted")
+	} else {
+		zzMust(w.mgr.Lock())
+	}
+	var owed []ManagedPubKeyAddress
+	names := 0
+	for s := 0; s < steps; s++ {
+		switch verifrt.Choice(5, "locked-op") {
+		case 0, 1:
+			internal := false
+			if verifrt.Choice(2, "branch") == 1 {
+				internal = true
+			}
+			zzMust(w.update(func(ns walletdb.ReadWriteBucket) error {
+				var mas []ManagedAddress
+				var err error
+				if internal {
+					mas, err = w.sm.NextInternalAddresses(ns, 0, 1)
+				} else {
+					mas, err = w.sm.NextExternalAddresses(ns, 0, 1)
+				}
+				if err != nil {
+					return err
+				}
+				owed = append(owed, mas[0].(ManagedPubKeyAddress))
+				return nil
+			}))
+			verifrt.Reach("issued-while-locked")
+		case 2:
+			names++
+			zzMust(w.update(func(ns walletdb.ReadWriteBucket) error {
+				return w.sm.RenameAccount(ns, 0, []string{"alice", "bob", "carol"}[names%3])
+			}))
+			verifrt.Reach("renamed-while-locked")
+		case 3:
+			zzMust(w.view(func(ns walletdb.ReadBucket) error {
+				_, err := w.sm.AccountProperties(ns, 0)
+				return err
+			}))
+		case 4:
+			w.sm.InvalidateAccountCache(0)
+		}
+	}
+	uerr := w.view(func(ns walletdb.ReadBucket) error { return w.mgr.Unlock(ns, w.pass) })
+	verifrt.Assert(uerr == nil && !w.mgr.IsLocked(), "c05-current-passphrase-unlocks-after-any-locked-history")
+	if uerr != nil {
+		return
+	}
+	for _, a := range owed {
+		priv, err := a.PrivKey()
+		verifrt.Assert(err == nil && priv != nil, "c05-address-issued-while-locked-has-its-private-key-after-unlock")
+		if err == nil && priv != nil {
+			verifrt.Assert(zzBytesEq(priv.PubKey().SerializeCompressed(), a.PubKey().SerializeCompressed()), "c05-private-key-issued-while-locked-matches-its-public-key")
+		}
+		// ... also when the address is looked up afresh
+		zzMust(w.view(func(ns walletdb.ReadBucket) error {
+			ma, err := w.mgr.Address(ns, a.Address())
+			zzMust(err)
+			p2, err := ma.(ManagedPubKeyAddress).PrivKey()
+			verifrt.Assert(err == nil && p2 != nil && zzBytesEq(p2.PubKey().SerializeCompressed(), a.PubKey().SerializeCompressed()), "c05-looked-up-address-has-its-private-key-after-unlock")
+			return nil
+		}))
+		w.pubAddr = append(w.pubAddr, a)
+	}
+	// a wrong passphrase now fails and leaves the manager locked
+	werr := w.view(func(ns walletdb.ReadBucket) error { return w.mgr.Unlock(ns, []byte("not-the-passphrase")) })
+	verifrt.Assert(werr != nil && w.mgr.IsLocked(), "c05-wrong-passphrase-fails-and-locks")
+	w.wiped("c05-history-wipe")
+	w.gated("c05-history-gate")
+	verifrt.Reach("c05-end")
+}
+
+func ZzC05LockedHistoryL2() { zzC05LockedHistory(1, 2) }
+func ZzC05LockedHistoryL3() { zzC05LockedHistory(1, 3) }
